@@ -787,33 +787,40 @@ Proof.
       hs_open.
       * right; left. eexists. split; [reflexivity|]. rewrite Elmtp, map_length, app_nil_r. exact Hlen.
       * split; [exact HBE|exact I].
-    + destruct (dr_drain d1 t1) as [[? ?] t2]. rewrite do_reset_eq. unfold reset_c. cs.
-      hs_open.
-      * right; left. eexists. split; [reflexivity|]. rewrite Elmtp, map_length, app_nil_r. exact Hlen.
-      * split; [exact HBE|exact I].
+    + destruct (dr_drain d1 t1) as [[de ?] t2]. unfold close_unless.
+      destruct (drained de); cbv beta iota; rewrite ?do_close_eq; cbv beta iota; rewrite do_reset_eq;
+        unfold reset_c, close_c; cs;
+        (hs_open;
+         [right; left; eexists; split; [reflexivity|]; rewrite Elmtp, map_length, ?app_nil_r; exact Hlen
+         |split; [exact HBE|exact I]]).
   - (* LMTP, one status for everybody *)
     destruct (dp_panic p).
     + rewrite do_close_eq. unfold reset_c, close_c. cs.
       hs_open.
       * right; right. repeat split; first [assumption|reflexivity].
       * split; [exact HBE|exact I].
-    + destruct (dr_drain d1 t1) as [[? ?] t2]. rewrite do_reset_eq. unfold reset_c. cs.
-      hs_open.
-      * right; left. eexists. split; [reflexivity|]. rewrite Elmtp, app_nil_r. cbn [List.length]. rewrite !map_length. reflexivity.
-      * split; [exact HBE|exact I].
+    + destruct (dr_drain d1 t1) as [[de ?] t2]. unfold close_unless.
+      destruct (drained de); cbv beta iota; rewrite ?do_close_eq; cbv beta iota; rewrite do_reset_eq;
+        unfold reset_c, close_c; cs;
+        (hs_open;
+         [right; left; eexists; split; [reflexivity|]; rewrite Elmtp, ?app_nil_r; cbn [List.length];
+          rewrite !map_length; reflexivity
+         |split; [exact HBE|exact I]]).
   - (* SMTP *)
     destruct (dp_panic p).
     + rewrite do_close_eq. unfold reset_c, close_c. cs.
       hs_open.
       * right; left. eexists. split; [reflexivity|]. rewrite Elmtp. reflexivity.
       * split; [exact HBE|exact I].
-    + destruct (dr_drain d1 t1) as [[? ?] t2].
+    + destruct (dr_drain d1 t1) as [[de ?] t2].
       destruct (data_error_to_status ret) as [[code ec] msg] eqn:Est.
       pose proof (status_triple _ _ _ _ Est Hret) as Hcode.
-      rewrite do_reset_eq. unfold reset_c. cs.
-      hs_open.
-      * right; left. eexists. split; [reflexivity|]. rewrite Elmtp. reflexivity.
-      * split; [exact HBE|exact I].
+      unfold close_unless.
+      destruct (drained de); cbv beta iota; rewrite ?do_close_eq; cbv beta iota; rewrite do_reset_eq;
+        unfold reset_c, close_c; cs;
+        (hs_open;
+         [right; left; eexists; split; [reflexivity|]; rewrite Elmtp; reflexivity
+         |split; [exact HBE|exact I]]).
 Qed.
 
 (* ---------- BDAT ---------- *)
@@ -857,17 +864,29 @@ Proof.
   end.
   2:{ destruct more as [|a1 [|a2 more]]; [exact Hbody|exact Hbody|hs_open; [left; eexists; reflexivity|exact HC]]. }
   destruct (parse_uint 32 a0) as [size| |]; [|hs_open; [left; eexists; reflexivity|exact HC]..].
-  destruct fr; [|simp_cond; rewrite discard_chunk_eq; cs; hs_open; [left; eexists; reflexivity|exact HC]].
-  destruct rc as [|r0 rc]; simp_cond; [rewrite discard_chunk_eq; cs; hs_open; [left; eexists; reflexivity|exact HC]|].
+  (* a refused chunk: the reply, then discardChunk (which closes when the chunk is short) *)
+  assert (Hrefused : forall code ec msg, (100 <= code <= 999)%Z ->
+    HS (fun cs _ => shape_bdat cfg (List.length rc) (last_of more) cs)
+       (let '(c1, ev1) := discard_chunk cfg (mkC t ph be h se er bm fr rc da false tl bd rv) size in
+        (c1, reply code ec msg :: ev1))).
+  { intros code ec msg Hcode. rewrite discard_chunk_eq.
+    match goal with |- context [discard_short ?c ?s] => destruct (discard_short c s) end;
+      cbv beta iota; unfold close_c; cs;
+      (hs_open; [left; eexists; reflexivity|first [exact HC|split; [exact (proj1 HC)|exact I]]]). }
+  destruct fr; [|simp_cond; apply Hrefused; lia].
+  destruct rc as [|r0 rc]; simp_cond; [apply Hrefused; lia|].
   match goal with
   | |- HS _ (match ?lo with None => _ | Some _ => _ end) => destruct lo as [last|] eqn:Elast
   end.
-  2:{ rewrite discard_chunk_eq; cs; hs_open; [left; eexists; reflexivity|exact HC]. }
+  2:{ apply Hrefused; lia. }
+  clear Hrefused.
   apply last_ok_last_of in Elast. rewrite <- Elast. clear Elast.
   get_session HI se.
   destruct (negb (cf_max_bytes cfg =? 0)%Z && (cf_max_bytes cfg <? rv + Z.of_N size)%Z).
-  { rewrite do_reset_eq, discard_chunk_eq; cs; unfold reset_c; cs.
-    hs_open; [left; eexists; reflexivity|split; [exact (proj1 HC)|exact I]]. }
+  { rewrite discard_chunk_eq.
+    match goal with |- context [discard_short ?c ?s] => destruct (discard_short c s) end;
+      cbv beta iota; rewrite do_reset_eq; unfold reset_c, close_c; cs;
+      (hs_open; [left; eexists; reflexivity|split; [exact (proj1 HC)|exact I]]). }
   simp_cond.
   (* start the delivery if there is none *)
   assert (H0 : exists b0 ev0 be0,
@@ -902,40 +921,46 @@ Proof.
   destruct (bd_feed b0 chunk) as [[b1 ev1] werr]. cbn [fst snd] in *.
   rewrite Hr0 in Hr1.
   assert (HCI : backend_codes_ok be0 = true /\ True) by (split; [exact Hbe0|exact I]).
-  destruct werr as [e|]; [|destruct cerr as [te|]].
-  1: cbv beta iota.
-  2: (cbv beta iota; destruct (t_copy_n (size - blen chunk) t1) as [[dg de] t1d]).
-  1,2: destruct (last && cf_lmtp cfg) eqn:Ell.
-  - (* the backend had stopped reading; LMTP LAST *)
-    pose proof (Hw1 e eq_refl) as He.
-    destruct (bd_end_ok b1 RDataReset Hb1) as (Hb2 & Hn2 & Hr2). rewrite Hr1 in Hr2.
-    destruct (bd_end b1 RDataReset) as [b2 ev2]. cbn [fst snd] in *.
-    destruct (bdat_lmtp_replies_rn cfg b2 e Hb2 He) as (cs & Hcs & Hlen). rewrite Hr2 in Hlen.
-    destruct (bdat_lmtp_replies cfg b2 e) as [rs pk]. cbn [fst] in Hcs. cs.
-    apply andb_true_iff in Ell as [El1 El2].
-    destruct (bd_panics b1); rewrite ?do_close_eq; cs; rewrite ?do_reset_eq; unfold close_c, reset_c; cs;
-      hs_open; first [apply shape_bdat_lmtp; assumption|exact HCI].
-  - (* the backend had stopped reading; one reply *)
-    pose proof (Hw1 e eq_refl) as He.
-    destruct (data_error_to_status e) as [[code ec] msg] eqn:Est.
-    pose proof (status_triple _ _ _ _ Est He) as Hcode. cs.
-    destruct (bd_panics b1); rewrite ?do_close_eq; cs; rewrite ?do_reset_eq; unfold close_c, reset_c; cs;
-      hs_open; first [left; eexists; reflexivity|exact HCI].
-  - (* the chunk could not be read; LMTP LAST *)
-    pose proof (berr_of_rerr_ok (rerr_of_copy te)) as He.
-    destruct (bd_end_ok b1 (rerr_of_copy te) Hb1) as (Hb2 & Hn2 & Hr2). rewrite Hr1 in Hr2.
-    destruct (bd_end b1 (rerr_of_copy te)) as [b2 ev2]. cbn [fst snd] in *.
-    destruct (bdat_lmtp_replies_rn cfg b2 _ Hb2 He) as (cs & Hcs & Hlen). rewrite Hr2 in Hlen.
-    destruct (bdat_lmtp_replies cfg b2 (berr_of_rerr (rerr_of_copy te))) as [rs pk]. cbn [fst] in Hcs. cs.
-    apply andb_true_iff in Ell as [El1 El2].
-    rewrite ?do_reset_eq; unfold reset_c; cs;
-      hs_open; first [apply shape_bdat_lmtp; assumption|exact HCI].
-  - (* the chunk could not be read; one reply *)
-    pose proof (berr_of_rerr_ok (rerr_of_copy te)) as He.
-    destruct (data_error_to_status (berr_of_rerr (rerr_of_copy te))) as [[code ec] msg] eqn:Est.
-    pose proof (status_triple _ _ _ _ Est He) as Hcode. cs.
-    rewrite ?do_reset_eq; unfold reset_c; cs;
-      hs_open; first [left; eexists; reflexivity|exact HCI].
+  destruct werr as [e|]; [destruct cerr as [te|]|destruct cerr as [te|]].
+  1,2: cbv beta iota zeta.
+  3: (cbv beta iota zeta; destruct (t_copy_n (size - blen chunk) t1) as [[dg [de|]] t1d]; cbv beta iota zeta).
+  (* 1: write error, chunk short; 2: write error, chunk read; 3: read error, discard short;
+     4: read error, discard complete; 5: the chunk was copied completely *)
+  1-4: destruct (last && cf_lmtp cfg) eqn:Ell.
+  1,3: ( (* the backend had stopped reading; LMTP LAST *)
+    pose proof (Hw1 e eq_refl) as He;
+    destruct (bd_end_ok b1 RDataReset Hb1) as (Hb2 & Hn2 & Hr2); rewrite Hr1 in Hr2;
+    destruct (bd_end b1 RDataReset) as [b2 ev2]; cbn [fst snd] in *;
+    destruct (bdat_lmtp_replies_rn cfg b2 e Hb2 He) as (cds & Hcs & Hlen); rewrite Hr2 in Hlen;
+    destruct (bdat_lmtp_replies cfg b2 e) as [rs pk]; cbn [fst] in Hcs; cs;
+    apply andb_true_iff in Ell as [El1 El2];
+    destruct (bd_panics b1); cbn [orb]; cbv beta iota;
+      rewrite ?do_close_eq; cs; rewrite ?do_reset_eq; unfold close_c, reset_c; cs;
+      hs_open; first [apply shape_bdat_lmtp; assumption|exact HCI]).
+  1,2: ( (* the backend had stopped reading; one reply *)
+    pose proof (Hw1 e eq_refl) as He;
+    destruct (data_error_to_status e) as [[code ec] msg] eqn:Est;
+    pose proof (status_triple _ _ _ _ Est He) as Hcode; cs;
+    destruct (bd_panics b1); cbn [orb]; cbv beta iota;
+      rewrite ?do_close_eq; cs; rewrite ?do_reset_eq; unfold close_c, reset_c; cs;
+      hs_open; first [left; eexists; reflexivity|exact HCI]).
+  1,3: ( (* the chunk could not be read; LMTP LAST *)
+    pose proof (berr_of_rerr_ok (rerr_of_copy te)) as He;
+    destruct (bd_end_ok b1 (rerr_of_copy te) Hb1) as (Hb2 & Hn2 & Hr2); rewrite Hr1 in Hr2;
+    destruct (bd_end b1 (rerr_of_copy te)) as [b2 ev2]; cbn [fst snd] in *;
+    destruct (bdat_lmtp_replies_rn cfg b2 _ Hb2 He) as (cds & Hcs & Hlen); rewrite Hr2 in Hlen;
+    destruct (bdat_lmtp_replies cfg b2 (berr_of_rerr (rerr_of_copy te))) as [rs pk]; cbn [fst] in Hcs; cs;
+    apply andb_true_iff in Ell as [El1 El2];
+    cbn [orb]; cbv beta iota;
+    rewrite ?do_close_eq; cs; rewrite ?do_reset_eq; unfold close_c, reset_c; cs;
+      hs_open; first [apply shape_bdat_lmtp; assumption|exact HCI]).
+  1,2: ( (* the chunk could not be read; one reply *)
+    pose proof (berr_of_rerr_ok (rerr_of_copy te)) as He;
+    destruct (data_error_to_status (berr_of_rerr (rerr_of_copy te))) as [[code ec] msg] eqn:Est;
+    pose proof (status_triple _ _ _ _ Est He) as Hcode; cs;
+    cbn [orb]; cbv beta iota;
+    rewrite ?do_close_eq; cs; rewrite ?do_reset_eq; unfold close_c, reset_c; cs;
+      hs_open; first [left; eexists; reflexivity|exact HCI]).
   - (* the chunk was copied completely *)
     destruct last; simp_cond.
     2:{ cs. hs_open; [left; eexists; reflexivity|]. split; [exact Hbe0|]. split; [exact Hb1|exact Hr1]. }
